@@ -616,6 +616,8 @@ def run(ctx: Ctx) -> None:
     shown = {}
     for kind, cnt in plan:
         for k in range(cnt):
+            if ctx.out_of_time():
+                break
             case = first if (kind, k) == ("sim", 0) else GENS[kind](ctx, rng)
             ctx.count("kind:" + kind)
             probs = run_case(ctx, case)
